@@ -2,6 +2,9 @@ import Spydr.Eblif.Props.C18
 import Spydr.Eblif.Props.C18RoundTrip
 import Spydr.Eblif.Props.C18ReadOk
 import Spydr.Eblif.Props.C18Ports
+import Spydr.Eblif.Props.C18BlackBox
+import Spydr.Eblif.Props.C18FullParse
+import Spydr.Eblif.Props.C18GenDefs
 #print axioms Spydr.Eblif.lexB_printB
 #print axioms Spydr.Eblif.lexB_continuation
 #print axioms Spydr.Eblif.parse_comment_line
@@ -39,3 +42,15 @@ import Spydr.Eblif.Props.C18Ports
 #print axioms Spydr.Eblif.ports_never_shrink
 #print axioms Spydr.Eblif.eblif_roundtrip_ports
 #print axioms Spydr.Eblif.hdr_port_list
+#print axioms Spydr.Eblif.parse_composed_lines_bb
+#print axioms Spydr.Eblif.eblif_roundtrip_blackbox
+#print axioms Spydr.Eblif.blackbox_models_frame
+#print axioms Spydr.Eblif.parse_composed_lines_full
+#print axioms Spydr.Eblif.read_composed_full
+#print axioms Spydr.Eblif.parse_rendered_names
+#print axioms Spydr.Eblif.parse_rendered_latch
+#print axioms Spydr.Eblif.parse_rendered_conn
+#print axioms Spydr.Eblif.generated_names_distinct
+#print axioms Spydr.Eblif.names_generated_ports
+#print axioms Spydr.Eblif.names_info_std
+#print axioms Spydr.Eblif.latch_generated_ports
